@@ -8,19 +8,14 @@ mod c17;
 mod c20;
 mod faults;
 mod frontend;
-mod io;
-mod choices;
 mod engine;
-mod gen;
 mod guard;
 mod json;
 mod parent;
 mod runner;
-mod trace;
-mod tree;
-mod treeread;
 mod wire;
 mod zoo;
+pub use simcore::{choices, gen, io, trace, tree, treeread};
 
 #[global_allocator]
 static GLOBAL: alloc::Counting = alloc::Counting;
